@@ -5,6 +5,13 @@ from .refmodel import RefGraph, read_stack
 HOST_PREFIXES = ("/simapp/", "/simlib/")
 
 
+def _safe_text(x):
+    try:
+        return str(x)
+    except BaseException:  # noqa (the exceptions the agent logged come from the host program: hostile __str__ included)
+        return "<%s>" % type(x).__name__
+
+
 class Recorder:
     """Sees every trace event before the agent does (installed at the trace seam).
 
@@ -55,7 +62,7 @@ class Recorder:
         self.post_ns[seq] = self.k.now_ns
         out = []
         w = self.world
-        errs = [(r[0], r[1], r[2], str(r[3])[:200]) for r in w.logs.records[nl:] if r[0] in ("ERROR", "CRITICAL")]
+        errs = [(r[0], r[1], r[2], _safe_text(r[3])[:200]) for r in w.logs.records[nl:] if r[0] in ("ERROR", "CRITICAL")]
         if errs:
             self.errors[seq] = errs
         for (_, th, snap) in w.pushed[np:]:
@@ -143,6 +150,9 @@ class Recorder:
                 # a lambda) see the function's locals there; with eval that takes one namespace, locals over globals
                 scope = dict(frame.f_globals)
                 scope.update(f_locals)
+                for nm in frame.f_code.co_varnames + frame.f_code.co_cellvars:
+                    if nm not in f_locals:
+                        scope.pop(nm, None)     # a local that is not bound yet hides the global of that name
                 val = eval(ex, scope)
                 n = g.node(val)
                 lv = [n]
@@ -157,7 +167,10 @@ class Recorder:
             while f is not None:
                 fn_ = f.f_code.co_filename
                 if fn_.startswith(HOST_PREFIXES):
-                    fl = dict(f.f_locals)
+                    try:
+                        fl = dict(f.f_locals)
+                    except Exception:  # noqa (a class body's namespace need not be a dict, or even a mapping)
+                        fl = {}
                     rts = {name: g.node(v) for name, v in fl.items()}
                     lv = list(rts.values())
                     for _ in range(self.depth - 1):
